@@ -296,3 +296,51 @@ def cond_tables(F, fid, mention):
         if any(re.search(mention, a) for a in tt[0]):
             out.add(tt)
     return out
+
+
+# ------------------------------------------------------------------------------------------------ accessor families
+# C_ / O_ reach their own slots of the registry / plan data through small static accessors that exist in several overloads (Control&,
+# const Control&, Registry&, const Registry&).  Every overload must address the same slot: the field named like the accessor, at the
+# region's own index constant.
+
+ACCESSOR_SLOT = {  # accessor -> (field, index constant)
+    "compoRequested": ("compoRequested", "COMPO_INDEX"), "compoActive": ("compoActive", "COMPO_INDEX"), "compoResumable": ("compoResumable", "COMPO_INDEX"),
+    "compoRemain": ("compoRemains", "COMPO_INDEX"), "headStatus": ("headStatuses", "REGION_ID"), "subStatus": ("subStatuses", "REGION_ID"),
+}
+
+
+def check_accessors(ctx, F, rule):
+    for fid, b in F.bodies.items():
+        if not b["inst"] or b.get("cls") not in ("C_", "O_"):
+            continue
+        name = b["name"]
+        if b["cls"] == "C_" and name in ACCESSOR_SLOT:
+            field, cname = ACCESSOR_SLOT[name]
+            want = [F.const(b["tid"], cname)]
+        elif b["cls"] == "O_" and name == "orthoRequested":
+            field, cname = "orthoRequested", "ORTHO_UNIT, WIDTH"
+            want = [F.const(b["tid"], "ORTHO_UNIT"), F.const(b["tid"], "WIDTH")]
+        else:
+            continue
+        ptype = (b.get("params") or [{}])[0].get("n", "?")
+        const = "const " if (b.get("params") or [{}])[0].get("const") else ""
+        site = "%s::%s(%s%s)" % (b["cls"], name, const, ptype)
+        rets = [x for x in walk(b["body"]) if x.get("k") == "ret" and x.get("e") is not None]
+        got_field, got_idx = None, None
+        if len(rets) == 1:
+            e = strip(rets[0]["e"])
+            if e.get("k") == "call" and e.get("obj") is not None:
+                o = strip(e["obj"])
+                got_field = o.get("n") if o.get("k") == "mem" else None
+                if e.get("op") == "[]" and e.get("a"):
+                    a = strip(e["a"][0])
+                    got_idx = [a.get("cv", a.get("v"))]
+                elif "f" in e:
+                    got_idx = [x.get("v") for x in (F.fn(e["f"]).get("ftargs") or []) if isinstance(x, dict)]
+        ctx.instance(rule, site, {"function": site, "loc": F.floc(fid), "field": got_field, "index": got_idx, "expected_index": "%s = %s" % (cname, want)})
+        if None in want:
+            raise AnalysisBroken("%s: constant %s not evaluated" % (site, cname))
+        if got_field != field or got_idx != want:
+            ctx.violation(rule, site, "%s (%s)" % (site, F.floc(fid)),
+                          "%s addresses %s[%s], expected %s[%s = %s]: this overload reads / writes another region's slot" % (
+                              site, got_field, got_idx, field, cname, want), {})
